@@ -230,3 +230,35 @@ func runQuery(sh *engine.VerifC04Shard, kmin, kmax int64, asc bool) (res qresult
 
 // kInf: logical time beyond every point the harness writes (tsOf(kInf) still fits an int64)
 const kInf = int64(1) << 30
+
+// runCount: count(v) per series of measurement m over the logical time range, through the aggregate path of the
+// store (CreateCursor + ChunkReader: pre-aggregation from chunk metadata where the files allow it, memtable rows
+// otherwise). Partial counts of one series (several chunks) are summed.
+func runCount(sh *engine.VerifC04Shard, m string, kmin, kmax int64) (counts map[int]int64, err error) {
+	counts = map[int]int64{}
+	defer func() {
+		if e := recover(); e != nil {
+			err = fmt.Errorf("PANIC in count query: %v\n%s", e, debug.Stack())
+		}
+	}()
+	sql := fmt.Sprintf("select count(v) from %s where time >= %d and time <= %d group by sk", m, tsOf(kmin), tsOf(kmax))
+	rows, _, err := sh.VerifC04AsVerifShard().Select(sql, map[string]influxql.DataType{"v": influxql.Integer, "w": influxql.Integer}, []string{"sk"})
+	if err != nil {
+		return counts, err
+	}
+	for _, r := range rows {
+		tag := r.Tags["sk"]
+		if len(tag) < 2 || tag[0] != 's' {
+			return counts, fmt.Errorf("count row without series tag: %v", r.Tags)
+		}
+		n, e := strconv.Atoi(tag[1:])
+		if e != nil {
+			return counts, fmt.Errorf("count row with series tag %q", tag)
+		}
+		if len(r.Cells) != 1 || r.Cells[0].Nil {
+			continue
+		}
+		counts[n] += r.Cells[0].I
+	}
+	return counts, nil
+}
